@@ -592,6 +592,40 @@ Section StoreProofs.
     - intros [Hin Hne]. apply dir_list_in. rewrite dir_get_remove_other by congruence. apply dir_list_in. exact Hin.
   Qed.
 
+  (* Delete(ids...) *)
+  Lemma delete_all_spec : forall ids st,
+    let r := dir_delete_all st ids in
+    (forall id, dir_get (fst r) id = dir_get st id \/ dir_get (fst r) id = None)
+    /\ (snd r = true -> forall id, dir_get (fst r) id = if existsb (N.eqb id) ids then None else dir_get st id).
+  Proof.
+    induction ids as [|i t IH]; intros st; cbn [dir_delete_all].
+    - split; [intros; left; reflexivity|]. intros _ id. reflexivity.
+    - unfold dir_delete. destruct (dir_get st i) as [f|] eqn:E.
+      + destruct (IH (dir_remove st i)) as [H1 H2]. split.
+        * intros id. destruct (H1 id) as [H|H]; [|right; exact H].
+          destruct (N.eq_dec i id) as [<-|Hne].
+          -- right. rewrite H. apply dir_get_remove_same.
+          -- left. rewrite H. apply dir_get_remove_other. exact Hne.
+        * intros Hok id. rewrite (H2 Hok id). cbn [existsb].
+          destruct (N.eqb_spec id i) as [->|Hne]; cbn [orb].
+          -- destruct (existsb (N.eqb i) t); [reflexivity|apply dir_get_remove_same].
+          -- destruct (existsb (N.eqb id) t); [reflexivity|]. apply dir_get_remove_other. congruence.
+      + cbn [fst snd]. split; [intros; left; reflexivity|discriminate].
+  Qed.
+
+  Lemma store_delete_all : forall k ids st,
+    let r := dir_delete_all st ids in
+    (forall id, store_get k (fst r) id = store_get k st id \/ store_get k (fst r) id = GNoFile)
+    /\ (snd r = true -> forall id, store_get k (fst r) id = if existsb (N.eqb id) ids then GNoFile else store_get k st id)
+    /\ (forall id, In id (dir_list (fst r)) <-> dir_get (fst r) id <> None).
+  Proof.
+    intros k ids st r. destruct (delete_all_spec ids st) as [H1 H2]. fold r in H1, H2. repeat split.
+    - intros id. unfold StoreFrame.store_get. destruct (H1 id) as [-> | ->]; [left|right]; reflexivity.
+    - intros Hok id. unfold StoreFrame.store_get. rewrite (H2 Hok id). destruct (existsb (N.eqb id) ids); reflexivity.
+    - apply dir_list_in.
+    - apply dir_list_in.
+  Qed.
+
   (* histories of Set/Delete on arbitrary IDs against the reference "last write wins" *)
   Inductive sop := OSet (id : N) (n : bytes) (d : bytes) | ODelete (id : N).
 
